@@ -264,7 +264,11 @@ class EditStream(HTMLHandlerBase):
                 k.toJSON(exclude=exclude, pure=True) for k in context['keys']
             ]
             return jsonify(result)
-        options = self.calculate_options('vod', flask.request.args)
+        try:
+            options = self.calculate_options('vod', flask.request.args)
+        except ValueError as err:
+            logging.info('Invalid CGI parameters: %s', err)
+            return flask.make_response('Invalid CGI parameters', 400)
         options.audioCodec = 'any'
         options.textCodec = None
         options.drmSelection = []
